@@ -181,6 +181,14 @@ def run(prog: Program, res: Result) -> None:  # noqa: PLR0912, PLR0915
     from checks.shared import check_cache_hit_rebinds
 
     check_cache_hit_rebinds(prog, res, "C09.R2b")
+    res.rule("C09.R9", "what a render shows follows the loader's contents at that moment, not an earlier load: a file-backed cached template is fresh only if the modification time recorded at load time EQUALS the file's current one (shared with C14.R3)")
+    from checks.shared import check_freshness_equality
+
+    check_freshness_equality(prog, res, "C09.R9")
+    res.rule("C09.R10", "configuring one Environment never alters another: a caching loader shared by two environments returns a cached template only to the Environment it was parsed for - unconditionally, sync and async (shared with C14.R5 / C04.S5 / C18.R7)")
+    from checks.shared import check_cache_hit_environment
+
+    check_cache_hit_environment(prog, res, "C09.R10")
 
     # ------------------------------------------------------------------ R3 fresh per-render state
     res.rule("C09.R3", "RenderContext.__init__ builds locals/counters/tag_namespace/loops from fresh literals; Template.render[_async] constructs a new RenderContext and buffer on every call; class-level containers handed to instances are never mutated")
